@@ -1233,6 +1233,10 @@ class MemoryCache:
         if has_result:
             self._put_ref(cache_key, result)
 
+        # Remove any existing cached items for this memento, so a stale entry is never
+        # served in place of a newer result that is too big to be cached
+        self._evict(cache_key)
+
         # If the object is too big to fit in the cache, return immediately
         obj_size = self._estimate_object_size(result)
         if obj_size > self.memory_cache_bytes:
@@ -1244,9 +1248,6 @@ class MemoryCache:
         if isinstance(result, pd.DataFrame) or isinstance(result, pd.Series):
             result = result.copy()
             self._put_ref(cache_key, result)
-
-        # Remove any existing cached items for this memento
-        self._evict(cache_key)
 
         # Free up memory in the cache (if needed) by discarding LRU
         while (
